@@ -185,8 +185,10 @@ fn separator(a: &Piece, b: &Piece, t: &Table, glue_num_id: bool) -> u8 {
     1
 }
 
-/// ws: None = minimal whitespace; Some(rng) = random extra blanks and tabs wherever they are not significant
-fn render(toks: &[Tok], style: Style, seed: u64, random_ws: bool, t: &Table) -> String {
+/// random_ws: extra blanks and tabs wherever they are not significant (else minimal whitespace);
+/// force_sep: a blank between all tokens except where it is forbidden (fallback when the minimal text does not lex
+/// as intended, so that the parser still sees this spelling variant)
+fn render(toks: &[Tok], style: Style, seed: u64, random_ws: bool, force_sep: bool, t: &Table) -> (String, Vec<String>) {
     let mut rng = Rng::new(seed);
     let pieces: Vec<Piece> = toks.iter().map(|tk| spell(tk, style, rng.next() >> 8, t)).collect();
     let mut out = String::new();
@@ -204,7 +206,9 @@ fn render(toks: &[Tok], style: Style, seed: u64, random_ws: bool, t: &Table) -> 
             match separator(&pieces[i - 1], p, t, !random_ws || rng.chance(1, 2)) {
                 0 => {}
                 1 => {
-                    if random_ws && rng.chance(1, 2) {
+                    if force_sep {
+                        if random_ws { blank(&mut rng, &mut out, true) } else { out.push(' ') }
+                    } else if random_ws && rng.chance(1, 2) {
                         blank(&mut rng, &mut out, true);
                     }
                 }
@@ -218,12 +222,12 @@ fn render(toks: &[Tok], style: Style, seed: u64, random_ws: bool, t: &Table) -> 
     if random_ws && rng.chance(1, 3) {
         blank(&mut rng, &mut out, true);
     }
-    out
+    (out, pieces.into_iter().map(|p| p.text).collect())
 }
 
-/// Does the text lex to the intended tokens? None = the sequence has no text at all (a dot that is not
-/// followed by an identifier is not a token, Lexer.tla part 2 (c)).
-fn lex_check(toks: &[Tok], text: &str) -> Option<Result<(), String>> {
+/// Does the text lex to the intended tokens (kinds and lexemes)? None = the sequence has no text at all (a dot
+/// that is not followed by an identifier is not a token, Lexer.tla part 2 (c)).
+fn lex_check(toks: &[Tok], pieces: &[String], text: &str) -> Option<Result<(), String>> {
     for (i, t) in toks.iter().enumerate() {
         if t.k == "dot" && toks.get(i + 1).map(|n| n.k != "id").unwrap_or(true) {
             return None;
@@ -232,12 +236,16 @@ fn lex_check(toks: &[Tok], text: &str) -> Option<Result<(), String>> {
     Some(match numbat::verif::token_kinds(text) {
         Err(e) => Err(format!("tokenizer error: {e}")),
         Ok(ks) => {
-            if ks.len() != toks.len() {
-                Err(format!("{} tokens instead of {}: {:?}", ks.len(), toks.len(), ks))
+            let problem = if ks.len() != toks.len() {
+                Some(format!("{} tokens instead of {}", ks.len(), toks.len()))
             } else if let Some(i) = (0..ks.len()).find(|&i| !impl_kind_ok(&toks[i], &ks[i].0)) {
-                Err(format!("token {} is {} ({:?}) instead of {}", i + 1, ks[i].0, ks[i].1, toks[i].k))
+                Some(format!("token {} is {} instead of {}", i + 1, ks[i].0, toks[i].k))
             } else {
-                Ok(())
+                (0..ks.len()).find(|&i| ks[i].1 != pieces[i]).map(|i| format!("token {} is {:?} instead of {:?}", i + 1, ks[i].1, pieces[i]))
+            };
+            match problem {
+                Some(p) => Err(format!("{p}: {ks:?}")),
+                None => Ok(()),
             }
         }
     })
@@ -312,22 +320,34 @@ fn g_run(args: &[String]) -> i32 {
         let mut texts: Vec<String> = vec![];
         let mut msg = String::new();
         let mut lexbad: Vec<J> = vec![];
+        let mut nlexbad = 0u64;
+        let mut xp: Vec<Vec<String>> = vec![];
         for (vi, (style, ws)) in VARIANTS.iter().enumerate() {
-            let text = render(&toks, *style, seed.wrapping_mul(1_000_003).wrapping_add((i * 16 + vi) as u64), *ws, &table);
-            if let Some(Err(e)) = lex_check(&toks, &text) {
-                lexbad.push(json!({"text": text, "why": e}));
-                continue;
+            let vseed = seed.wrapping_mul(1_000_003).wrapping_add((i * 16 + vi) as u64);
+            let (mut text, mut pieces) = render(&toks, *style, vseed, *ws, false, &table);
+            if let Some(Err(e)) = lex_check(&toks, &pieces, &text) {
+                nlexbad += 1;
+                if lexbad.is_empty() {
+                    lexbad.push(json!({"text": text, "why": e}));
+                }
+                (text, pieces) = render(&toks, *style, vseed, *ws, true, &table);
+                if let Some(Err(e2)) = lex_check(&toks, &pieces, &text) {
+                    lexbad.push(json!({"text": text, "why": e2, "separated": true}));
+                    continue;
+                }
             }
             let (o, m) = parse_outcome(&text);
             if !outs.contains(&o) {
                 outs.push(o);
                 texts.push(text);
+                xp.push(pieces);
                 if msg.is_empty() { msg = m; }
             }
         }
         let mut r = json!({"i": i, "o": outs, "x": texts});
+        if outs.iter().any(|o| o != "REJECT") || outs.len() > 1 || cases[i].get("a").is_some() { r["xp"] = json!(xp); }
         if !msg.is_empty() { r["m"] = json!(msg); }
-        if !lexbad.is_empty() { r["lexbad"] = json!(lexbad); }
+        if !lexbad.is_empty() { r["lexbad"] = json!(lexbad); r["nlexbad"] = json!(nlexbad); }
         r
     });
     for r in &res {
@@ -637,18 +657,25 @@ fn j_record(args: &[String]) -> i32 {
     let mut nolex = 0u64;
     for (n, (toks, origin)) in seqs.iter().enumerate() {
         let style = *rng.pick(&[Style::Ascii, Style::Unicode, Style::Mixed, Style::Mixed]);
-        let text = render(toks, style, seed.wrapping_mul(7_919).wrapping_add(n as u64), rng.chance(1, 2), &table);
-        match lex_check(toks, &text) {
+        let ws = rng.chance(1, 2);
+        let vseed = seed.wrapping_mul(7_919).wrapping_add(n as u64);
+        let (mut text, mut pieces) = render(toks, style, vseed, ws, false, &table);
+        match lex_check(toks, &pieces, &text) {
             None => { nolex += 1; continue; }          // no text has this token sequence
             Some(Err(e)) => {
                 out.line(&json!({"lexbad": true, "text": text, "why": e, "toks": toks.iter().map(|t| json!([t.k, t.v])).collect::<Vec<_>>()}));
-                continue;
+                (text, pieces) = render(toks, style, vseed, ws, true, &table);
+                if let Some(Err(e2)) = lex_check(toks, &pieces, &text) {
+                    out.line(&json!({"lexbad": true, "separated": true, "text": text, "why": e2,
+                                     "toks": toks.iter().map(|t| json!([t.k, t.v])).collect::<Vec<_>>()}));
+                    continue;
+                }
             }
             Some(Ok(())) => {}
         }
         let (o, m) = parse_outcome(&text);
-        out.line(&json!({"toks": toks.iter().map(|t| json!([t.k, t.v])).collect::<Vec<_>>(), "text": text, "origin": origin,
-                         "out": outcome_tree(&o), "msg": m}));
+        out.line(&json!({"toks": toks.iter().map(|t| json!([t.k, t.v])).collect::<Vec<_>>(), "text": text, "pieces": pieces,
+                         "origin": origin, "out": outcome_tree(&o), "msg": m}));
     }
     out.flush();
     eprintln!("j-record: {} sequences, {} without a text", seqs.len(), nolex);
